@@ -879,6 +879,21 @@ mod search_admission {
                 if stored.as_ref() != shadow.get(&key) {
                     panic!("VERIF-SEARCH-HIT C05/request/retrieve_returns_exactly_the_stored_bytes_or_nothing key[0]={} stored_len={:?} expected_len={:?}", key[0], stored.as_ref().map(|v| v.len()), shadow.get(&key).map(|v| v.len()));
                 }
+                // any other request kind leaves the store as it was (only Store writes)
+                let other_len = [0usize, 100, 512, 513, 4096][r.below(5) as usize];
+                let other_val: Vec<u8> = vec![0xA5; other_len];
+                let okey = { let mut k = [0u8; 32]; k[0] = (round % 7) as u8; k };
+                let before = e.handle_request(DhtRequestWrapper { id: id.clone(), message: DhtMessage::Retrieve { key: DhtKey::from_bytes(okey), consistency: ConsistencyLevel::One } }).await;
+                let _ = e.handle_request(DhtRequestWrapper { id: id.clone(), message: DhtMessage::Replicate { key: DhtKey::from_bytes(okey), value: other_val.clone(), version: round as u64 } }).await;
+                let after = e.handle_request(DhtRequestWrapper { id: id.clone(), message: DhtMessage::Retrieve { key: DhtKey::from_bytes(okey), consistency: ConsistencyLevel::One } }).await;
+                if let (DhtResponse::RetrieveReply { value: b }, DhtResponse::RetrieveReply { value: a }) = (before.response, after.response) {
+                    if a.as_ref().map(|v| v.len() > 512).unwrap_or(false) {
+                        panic!("VERIF-SEARCH-HIT C05/request/a_stored_value_over_512_bytes_is_refused_and_never_enters_the_store request=Replicate value_len={} then Retrieve returns {} bytes", other_len, a.as_ref().map(|v| v.len()).unwrap_or(0));
+                    }
+                    if a != b {
+                        panic!("VERIF-SEARCH-HIT C05/request/only_a_store_request_changes_the_store request=Replicate value_len={} stored before={:?} after={:?}", other_len, b.as_ref().map(|v| v.len()), a.as_ref().map(|v| v.len()));
+                    }
+                }
                 // find-node: any count, never more than 20 names
                 let count = match r.below(6) { 0 => usize::MAX, 1 => 21, 2 => 20, 3 => 1000, _ => r.below(40) as usize };
                 let fr = e.handle_request(DhtRequestWrapper { id: id.clone(), message: DhtMessage::FindNode { target: DhtKey::from_bytes(r.bytes()), count } }).await;
@@ -892,6 +907,67 @@ mod search_admission {
                         }
                     }
                     other => panic!("VERIF-SEARCH-HIT C05/request/a_find_node_reply_never_names_more_than_20_nodes_whatever_count_was_asked reply={:?}", other),
+                }
+            }
+        });
+    }
+
+    /// C02 (reply to a remote find-node / find-value request): exactly the min(count, cap, size) closest table
+    /// entries, ascending, each once -- whatever optional features (trust-weighted selection) are switched on.
+    #[test]
+    fn verif_search_c02_reply() {
+        use crate::dht::network_integration::{DhtMessage, DhtResponse};
+        let seed: u64 = std::env::var("VERIF_SEED").ok().and_then(|s| s.parse().ok()).unwrap_or(0);
+        let mut r = Rng(0x51ed_2701_9e37_79b9 ^ seed.wrapping_mul(0x1000_0000_01b3) | 1);
+        let rt = tokio::runtime::Builder::new_current_thread().enable_all().build().expect("runtime");
+        rt.block_on(async {
+            for round in 0..12usize {
+                let mut e = DhtCoreEngine::new_for_tests(NodeId::from_bytes([0u8; 32])).expect("engine");
+                let mut ids: Vec<[u8; 32]> = Vec::new();
+                for i in 0..36u8 {
+                    let mut id = [0u8; 32];
+                    let bit = (i as usize / 3) % 12;
+                    id[bit / 8] |= 0x80 >> (bit % 8);
+                    id[31] = 1 + i % 3;
+                    if round % 2 == 1 { id[16] = r.below(256) as u8; id[20] = r.below(256) as u8; }
+                    let mut n = mk_node(id);
+                    n.address = format!("10.{}.0.1:9000", i + 1);
+                    if e.add_node(n).await.is_ok() { ids.push(id); }
+                }
+                let with_trust = round % 3 != 2;
+                if with_trust {
+                    // some peers that are not the closest to the keys asked about are well trusted
+                    let mut pre = std::collections::HashSet::new();
+                    for id in ids.iter() {
+                        if r.below(4) == 0 {
+                            pre.insert(crate::dht::trust_peer_selector::dht_node_to_adaptive_id(&NodeId::from_bytes(*id)));
+                        }
+                    }
+                    let trust = std::sync::Arc::new(crate::adaptive::EigenTrustEngine::new(pre));
+                    e.enable_trust_selection(trust, crate::dht::TrustSelectionConfig::default());
+                }
+                for q in 0..10usize {
+                    let target: [u8; 32] = match q { 0 => [0u8; 32], 1 => [0xffu8; 32], 2 | 3 if !ids.is_empty() => { let mut t = ids[r.below(ids.len() as u64) as usize]; t[31] ^= 1 + r.below(3) as u8; t }, _ => r.bytes() };
+                    let mut sorted = ids.clone();
+                    sorted.sort_by_key(|id| { let mut d = [0u8; 32]; for k in 0..32 { d[k] = id[k] ^ target[k]; } d });
+                    for count in [0usize, 1, 2, 3, 8, 19, 20, 21, 64] {
+                        let fr = e.handle_request(DhtRequestWrapper { id: "q".into(), message: DhtMessage::FindNode { target: DhtKey::from_bytes(target), count } }).await;
+                        let got: Vec<[u8; 32]> = match fr.response { DhtResponse::FindNodeReply { nodes, .. } => nodes.iter().map(|n| *n.id.as_bytes()).collect(), other => panic!("VERIF-SEARCH-HIT C02/reply/find_node_reply_is_the_closest_min_count_20_entries_never_more_than_the_cap reply={:?}", other) };
+                        let want: Vec<[u8; 32]> = sorted.iter().take(count.min(20)).cloned().collect();
+                        if got != want {
+                            panic!("VERIF-SEARCH-HIT C02/reply/find_node_reply_is_the_closest_min_count_20_entries_never_more_than_the_cap trust_selection={} round={} target={} count={} reply=[{}] closest=[{}]",
+                                   with_trust, round, hex(&target), count, got.iter().map(|x| hex(x)[..6].to_string()).collect::<Vec<_>>().join(","), want.iter().map(|x| hex(x)[..6].to_string()).collect::<Vec<_>>().join(","));
+                        }
+                    }
+                    let fv = e.handle_request(DhtRequestWrapper { id: "q".into(), message: DhtMessage::FindValue { key: DhtKey::from_bytes(target) } }).await;
+                    if let DhtResponse::FindValueReply { value: None, nodes } = fv.response {
+                        let got: Vec<[u8; 32]> = nodes.iter().map(|n| *n.id.as_bytes()).collect();
+                        let want: Vec<[u8; 32]> = sorted.iter().take(8).cloned().collect();
+                        if got != want {
+                            panic!("VERIF-SEARCH-HIT C02/reply/find_value_reply_names_at_most_k_closest_entries trust_selection={} round={} key={} reply=[{}] closest=[{}]",
+                                   with_trust, round, hex(&target), got.iter().map(|x| hex(x)[..6].to_string()).collect::<Vec<_>>().join(","), want.iter().map(|x| hex(x)[..6].to_string()).collect::<Vec<_>>().join(","));
+                        }
+                    }
                 }
             }
         });
